@@ -141,11 +141,9 @@ with b_stat (flv slv : Z) (reg : loc) (s : stat) (en : env) {struct s} : bres :=
     let (en1, os) := b_block flv (slv + 1) l b en in
     (en, os ++ b_exp flv (slv + 1) l e en1)
   | SForNum n vl e1 e2 e3 b l =>
-    (* class B5: the step is visited BEFORE the limit, so a function scope of the step precedes the function scopes
-       of the limit in SubScopes and FindMinScope's early exit never reaches the latter *)
-    let lim := b_exp flv slv reg e2 en in
-    let lim' := if has_func e3 then tag_if (fun o => flv <? s_flv o) CB5 lim else lim in
-    let bounds := b_exp flv slv reg e1 en ++ lim' ++ b_exp flv slv reg e3 en in
+    (* class B5 (REPAIRED, fixes/C05-for-step-order.diff: no occurrence carries the tag CB5 any more): the step was visited BEFORE the limit, so a function scope of the step preceded
+       the function scopes of the limit in SubScopes and FindMinScope's early exit never reached the latter *)
+    let bounds := b_exp flv slv reg e1 en ++ b_exp flv slv reg e2 en ++ b_exp flv slv reg e3 en in
     (en, tag_if (fun o => outer_use en o && beq_bytes (s_name o) n) CB2 bounds
                 ++ decl_occ en flv (slv + 1) l false (n, vl)
                 :: snd (b_block flv (slv + 1) l b (push_decls en [(n, vl)] [false])))
